@@ -6,7 +6,7 @@ FAMILIES = ['resize', 'reuse', 'idleshrink', 'cbreuse', 'growshrink']
 PER_FAMILY = (700, 12000)
 
 PROOF = S.pool_proof('C10', ['C10_never_posts_while_work_is_pending', 'C10_resize_returns_as_asked', 'C10_blocked_resize_can_always_progress',
-                             'C10_invariant_of_every_history', 'C10_structure'],
+                             'C10_invariant_of_every_history', 'C10_structure', 'C10_posting_refuted_when_idle_workers_are_leaving', 'C10_posting_partial'],
                      'a counter model: which worker takes which sentinel, the identity of the kept processes and wall-clock time are not '
                      'modelled; "terminates" is deadlock-freedom with a strictly decreasing measure, not a bound in seconds; locks held by '
                      'dead processes (H5) are outside the model')
